@@ -33,7 +33,6 @@ import collections
 import datetime
 import hashlib
 import itertools
-import json
 import os
 import time
 
@@ -53,7 +52,6 @@ SUB_STATE = ('ERROR', 'SUCCESS')
 STATES = ref.STATES
 LET = {'IDLE': 'I', 'RUNNING': 'R', 'PAUSED': 'P', 'SUCCESS': 'S',
        'ERROR': 'E', 'CANCELLED': 'C'}
-UNLET = {v: k for k, v in LET.items()}
 SHAPES = ('F', 'N1', 'N2')
 DEPTH = {'F': 0, 'N1': 1, 'N2': 2}
 
@@ -335,10 +333,11 @@ def run_case(pop, st, ents, before, snap):
     apply_settings(st)
     n_wf = sum(1 for e in ents.values() if e['kind'] == 'wf')
     ev = evaluate(limit=2 * n_wf + 4)
-    if ev['watchdog']:
-        # a transaction was abandoned: rebuild a clean session state
-        env.reset(overrides=AUTH_ON)
     after = read_db()
+    if ev['watchdog']:
+        # a transaction was abandoned (rolled back by its context manager):
+        # rebuild a clean session state; the next case restores its image
+        env.reset(overrides=AUTH_ON)
     return ev, after, oracle(ents, before, after, st, ev)
 
 
@@ -379,7 +378,7 @@ def run_job(job, deadline):
         cid = '%s/%s/%s' % (fam, pid, st_id(st))
         must, keep = ref.expectation(roots, st)
         age_on, cnt_on = ref.criteria(st)
-        configured = age_on or cnt_on or st['ot'] == 0
+        configured = age_on or cnt_on
         guarded_subs = n_sub if configured else 0
         nontrivial = bool(must or (configured and (keep or guarded_subs)))
         if nontrivial:
@@ -646,9 +645,9 @@ def main(tier):
         'the threshold is kept); max_finished_executions counts finished, '
         'non-ignored ROOT executions of all projects together; ties in '
         'updated_at may be broken either way',
-        'older_than=0 is below the documented minimum of 1: the reference '
-        'accepts both "criterion not applied" and "threshold = now" (what '
-        'the implementation does: it then deletes every finished root)',
+        'older_than unset or 0 (below the documented minimum of 1) means '
+        '"no age criterion"; max_finished_executions unset or 0 means "no '
+        'count criterion"; with neither configured nothing may be deleted',
         'an evaluation that raises is reported only through its outcome '
         '(rows that should have been deleted and were not)',
         'auth_enable=True so that trees of projects A and B really carry '
